@@ -27,14 +27,14 @@ func init() {
 			"under string-casting chains only string-castable leaves are filled (other leaf types stay in the type, unset)",
 			"an alias copy and its primary are never both filled (C14 judges that)",
 		},
-		MinDistinct: map[string]int{"quick": 5000, "thorough": 150000},
+		MinDistinct: map[string]int{"quick": 5000, "thorough": 1000000},
 		MinCounters: map[string]map[string]int64{
 			"quick":    {"leaves_filled_and_compared": 30000, "empty_translated_value_checks": 8000, "chains_with_type_changing_mangler": 4000},
-			"thorough": {"leaves_filled_and_compared": 1500000},
+			"thorough": {"leaves_filled_and_compared": 5000000},
 		},
 		Plan: func(tier string) fw.Plan {
 			if tier == "thorough" {
-				return fw.Plan{Shards: 16, CasesPerShard: 20000, TimeoutSec: 3000}
+				return fw.Plan{Shards: 64, CasesPerShard: 60000, Parallel: 16, TimeoutSec: 3000}
 			}
 			return fw.Plan{Shards: 16, CasesPerShard: 1500, TimeoutSec: 600}
 		},
@@ -340,7 +340,7 @@ func runC10(w *fw.Worker) {
 	w.Cases(func(i int, r *fw.Rand) {
 		ch := c10Chains(r)
 		leavesPool := gen.Leaves
-		o := gen.GenOpts{MaxDepth: w.Pick(3, 4) - r.Intn(2), MaxFields: r.Range(2, 6), SkipPct: r.Range(0, 25), StructPct: r.Range(10, 45), TagPct: r.Range(0, 60), Leaves: leavesPool, InitialismPct: 15,
+		o := gen.GenOpts{MaxDepth: w.Pick(3, 4) - r.Intn(2), MaxFields: r.Range(2, 6), SkipPct: r.Range(0, 25), StructPct: r.Range(10, 45), TagPct: r.Range(0, 60), Leaves: leavesPool, InitialismPct: 15, HollowPct: 6,
 			TagStyles: []string{"snake", "kebab", "lowerCamel"}}
 		spec := gen.RandomSpec(r, o)
 		leaves := spec.LeafRefs()
